@@ -230,6 +230,67 @@ def gen_ir(g, rng, cov, n_modules=None, entry_later=False, with_aux=True):
                 if lab2 != e.label:
                     ir.cfg.add(g.Edge(e.source, e.target, lab2))
                     cov.hit("parallel-edges")
+    # the same states reached through the OTHER entry points: what the constructors were given is now partly replaced by attribute
+    # assignment and in-place edits of the mutable parts (flag sets, attribute sets, stored bytes), with values at the edge of each
+    # domain (the zero-valued enum member, the empty string, 0, an emptied set)
+    for m in mods:
+        if rng.random() < 0.4:
+            m.name = rng.choice(NAMES)
+            m.isa = rng.choice([g.Module.ISA(0)] + enum_members(g.Module.ISA))
+            m.file_format = rng.choice([g.Module.FileFormat(0)] + enum_members(g.Module.FileFormat))
+            m.byte_order = rng.choice([g.Module.ByteOrder(0)] + enum_members(g.Module.ByteOrder))
+            m.preferred_addr, m.rebase_delta, m.binary_path = bnd_u64(rng), bnd_i64(rng), rng.choice(NAMES)
+            cov.hit("edited-after-construction:module")
+        for s in m.sections:
+            r = rng.random()
+            F = enum_members(g.Section.Flag)
+            if r < 0.2:
+                s.flags.add(rng.choice([g.Section.Flag(0)] + F))
+                cov.hit("edited-after-construction:flags.add")
+            elif r < 0.3:
+                s.flags |= set(rng.sample(F, 2)) | {g.Section.Flag(0)}
+                cov.hit("edited-after-construction:flags|=")
+            elif r < 0.4:
+                s.flags = set(rng.sample(F, rng.choice([0, 1, 3])))
+                cov.hit("edited-after-construction:flags=")
+            elif r < 0.45:
+                s.flags.clear()
+                cov.hit("edited-after-construction:flags.clear")
+            if rng.random() < 0.2:
+                s.name = rng.choice(NAMES)
+            for bi in s.byte_intervals:
+                if rng.random() < 0.25:
+                    bi.address = rng.choice([None, 0, 4096, U64])
+                    cov.hit("edited-after-construction:address")
+                if len(bi.contents) and rng.random() < 0.3:
+                    bi.contents[rng.randrange(len(bi.contents))] = rng.choice([0, 255, 0x7f])
+                    cov.hit("edited-after-construction:byte")
+                for b in bi.blocks:
+                    if rng.random() < 0.2:
+                        b.size, b.offset = rng.choice([0, 1, 4, U64]), rng.choice([0, 1, 4, U64])
+                        if isinstance(b, g.CodeBlock):
+                            b.decode_mode = rng.choice([g.CodeBlock.DecodeMode(0)] + enum_members(g.CodeBlock.DecodeMode))
+                        cov.hit("edited-after-construction:block")
+                for e in bi.symbolic_expressions.values():
+                    r = rng.random()
+                    if r < 0.15:
+                        e.attributes.add(rng.choice(enum_members(g.SymbolicExpression.Attribute) + [424242]))
+                        cov.hit("edited-after-construction:attributes.add")
+                    elif r < 0.22:
+                        e.attributes.clear()
+                    elif r < 0.3:
+                        e.offset = bnd_i64(rng)
+        own = [b for s in m.sections for bi in s.byte_intervals for b in bi.blocks] + list(m.proxies)
+        for y in m.symbols:
+            r = rng.random()
+            if r < 0.12:
+                y.value = rng.choice([0, 1, U64])
+                cov.hit("edited-after-construction:symbol.value")
+            elif r < 0.24 and own:
+                y.referent = rng.choice(own)
+                cov.hit("edited-after-construction:symbol.referent")
+            elif r < 0.3:
+                y.name, y.at_end = rng.choice(NAMES), rng.random() < 0.5
     # AuxData at IR and module level
     if with_aux:
         env = AuxEnv(g, ir, rng)
